@@ -10,12 +10,28 @@ use crate::track::{
 };
 use crate::Errors;
 use anyhow::Result;
+#[cfg(not(similari_verif))]
 use crossbeam::channel::{Receiver, Sender};
+#[cfg(similari_verif)]
+use crate::verif::crossbeam;
+#[cfg(similari_verif)]
+use crate::verif::crossbeam::channel::{Receiver, Sender};
 use log::{error, warn};
 use std::collections::HashMap;
+#[cfg(not(similari_verif))]
 use std::sync::{Arc, Mutex, MutexGuard};
+#[cfg(similari_verif)]
+use crate::verif::sync::{Arc, Mutex, MutexGuard};
+#[cfg(not(similari_verif))]
 use std::thread::JoinHandle;
+#[cfg(similari_verif)]
+use crate::verif::thread::JoinHandle;
+#[cfg(not(similari_verif))]
 use std::{mem, thread};
+#[cfg(similari_verif)]
+use crate::verif::thread;
+#[cfg(similari_verif)]
+use std::mem;
 use track_distance::{TrackDistanceErr, TrackDistanceOk};
 
 #[derive(Clone)]
@@ -171,6 +187,8 @@ where
     ) {
         let store = stores.get(store_id).unwrap();
         while let Ok(c) = commands_receiver.recv() {
+            #[cfg(similari_verif)]
+            crate::verif::point("store.cmd.begin", store_id as u64);
             match c {
                 Commands::Drop(channel) => {
                     let _r = channel.send(Results::Dropped);
@@ -301,6 +319,8 @@ where
                     }
                 }
             }
+            #[cfg(similari_verif)]
+            crate::verif::label("store.cmd.end", store_id as u64);
         }
     }
 
@@ -451,6 +471,9 @@ where
             }
         }
 
+        #[cfg(similari_verif)]
+        crate::verif::point("store.distances.sent", tracks_count as u64);
+
         let count = self.executors.len() * tracks_count;
 
         (
@@ -477,6 +500,9 @@ where
         let tracks_vec = self.fetch_tracks(tracks);
 
         let res = self.foreign_track_distances(tracks_vec.clone(), feature_class, only_baked);
+
+        #[cfg(similari_verif)]
+        crate::verif::point("store.owned.sent", tracks_vec.len() as u64);
 
         for t in tracks_vec {
             self.add_track(t).unwrap();
